@@ -105,6 +105,8 @@ class FileDumper(DumperBase):
             if descriptor['name'] == resource.res.descriptor['name']:
                 resource_descriptor = descriptor
 
+        output_path = resource.res.source
+
         # File size:
         filesize = temp_file.tell()
         DumperBase.inc_attr(self.datapackage.descriptor, self.datapackage_bytes, filesize)
@@ -116,12 +118,13 @@ class FileDumper(DumperBase):
             # Update path with hash
             if self.add_filehash_to_path:
                 DumperBase.insert_hash_in_path(resource_descriptor, hasher.hexdigest())
+                output_path = resource_descriptor['path']
             DumperBase.set_attr(resource_descriptor, self.resource_hash, hasher.hexdigest())
 
         # Finalise
         filename = temp_file.name
         temp_file.close()
-        self.write_file_to_output(filename, resource.res.source)
+        self.write_file_to_output(filename, output_path)
         os.unlink(filename)
 
     def process_resource(self, resource: ResourceWrapper):
